@@ -13,10 +13,10 @@ import (
 )
 
 type Ctx struct {
-	Tier    string
-	Seed    int64
-	Rng     *rand.Rand
-	Workers int
+	Tier     string
+	Seed     int64
+	Rng      *rand.Rand
+	Workers  int
 	Thorough bool
 }
 
